@@ -194,7 +194,8 @@ def _solve_for_vector(run: Run, mod, f) -> None:
                 self.fail(n, "split_factor of something that is not a term")
             if name == "vector_equals" and len(n.args) == 2:
                 a, b = self.ev(n.args[0], env, fns), self.ev(n.args[1], env, fns)
-                return isinstance(a, T) and isinstance(b, T) and a == b
+                # equal after simplification: the same term, or the same vector written differently (f(k*(t - x)) against f(k*t - k*x))
+                return isinstance(a, T) and isinstance(b, T) and (a == b or {a, b} == {var("v0"), var("v0_rewritten")})
             if isinstance(n.func, ast.Name) and name not in self.functions and name not in fns and name in vfuncs:
                 # a helper that lives in the vectors module: evaluated there, with the same primitives
                 sub = R(vm.tree, "vectors/__init__.py")
@@ -234,10 +235,18 @@ def _solve_for_vector(run: Run, mod, f) -> None:
     # a coefficient that depends on the unknown (x*a + b*dot(a, c) + c solved for a): only the term whose VECTOR is the unknown moves
     dep = [(var("v0"), var("s0")), (var("v1"), fun("g", ("v0", ))), (var("v2"), var("s2"))]
     cases.append(("coefficient-mentions-unknown,unknown=v0", _VE(dep), dep, var("v0")))
+    # the unknown occurs in the expression in another written form (into_terms expands the arguments of an applied vector function):
+    # vector_equals recognises it, a structural comparison does not
+    rew = [(var("v0"), var("s0")), (var("v1"), var("s1")), (var("v2"), var("s2"))]
+    for k in range(3):
+        shown = [(var("v0_rewritten") if v == var("v0") else v, c) for v, c in rew[k:] + rew[:k]]
+        cases.append((f"unknown-written-differently,position={(3 - k) % 3}", _VE(shown), rew[k:] + rew[:k], var("v0")))
     for label, obj, terms, atomic in cases:
         for reduce_factor in (True, False):
             run.ob("Q3", f"{label},reduce={reduce_factor}")
             res = run_case(label, obj, terms, atomic, reduce_factor)
+            if "written-differently" in label and isinstance(res, tuple) and res and res[0] == "eq":
+                res = (res[0], substitute(res[1], {"v0_rewritten": var("v0")}), substitute(res[2], {"v0_rewritten": var("v0")})) + tuple(res[3:])
             if not (isinstance(res, tuple) and res and res[0] == "eq"):
                 run.violate("Q3", f"{MOD}:solve_for_vector:result:{label},reduce={reduce_factor}", f.mod, f.fn,
                             f"{label}: no equation is returned ({'raises ' + res.exc if isinstance(res, Raised) else repr(res)[:80]})")
@@ -256,7 +265,7 @@ def _solve_for_vector(run: Run, mod, f) -> None:
             else:
                 wants = [normalize(op("neg", expr))]
             if not any(same(diff, w_) for w_ in wants):
-                run.violate("Q3", f"{MOD}:solve_for_vector:formula:{'repeated' if 'repeated' in label else ('eq' if 'Eq' in label else 'plain')}:reduce={reduce_factor}", f.mod, f.fn,
+                run.violate("Q3", f"{MOD}:solve_for_vector:formula:{'repeated' if 'repeated' in label else ('eq' if 'Eq' in label else ('rewritten' if 'written' in label else 'plain'))}:reduce={reduce_factor}", f.mod, f.fn,
                             f"{label}, reduce_factor={reduce_factor}: lhs - rhs = {diff!r}; equivalence with the input requires {wants[0]!r}"
                             + (" (a term of the input was dropped or counted twice)" if "repeated" in label or "Eq" in label else ""))
             elif label == "N=3,i=1":
